@@ -4,7 +4,8 @@
 //! writes the inputs with every observed result and the bytes after every step as Coq cases.
 use hc_stdpath::*;
 use sciparse::{
-    core::view::View,
+    core::{convert::ToModel, encode::WireEncode, view::View},
+    dataplane_path::onehop::view::OneHopPathView,
     dataplane_path::standard::{
         mac::{ForwardingKey, algo::calculate_hop_mac},
         routing::{AdvanceError, AdvanceValidator, EgressValidateResult, HopMacValidator, IngressAdvanceAction, IngressValidateResult},
@@ -182,7 +183,7 @@ fn coq_case(kind: u64, b: &[u8], keys: &[ForwardingKey], steps: &[(Step, StepRes
         rs.push(format!("({},{},{},{})", r.code, coq_list(r.params.iter().map(|x| x.to_string())), after, r.hop_before));
         prev = r.after.clone();
     }
-    format!("mkRC {} {} {} {} {} {}", kind, coq_bytes(b), coq_list(keys.iter().map(|k| coq_bytes(k))),
+    format!("RStd (mkRC {} {} {} {} {} {})", kind, coq_bytes(b), coq_list(keys.iter().map(|k| coq_bytes(k))),
         coq_list(steps.iter().map(|(s, _)| format!("({},{})", s.kind, s.val.code()))), coq_list(rs), owner)
 }
 fn human(tag: &str, p: &RawPath, steps: &[(Step, StepRes)]) -> String {
@@ -296,6 +297,35 @@ fn main() {
             walk(&mut buf, segs, &keys, &mut steps, 80);
             let kind = if bits.len() == 1 { 2 } else { 3 };
             emit(coq_case(kind, &b, &keys, &steps, owner), format!("flip bits={:?} owner={} {}", bits, owner, human("", &p, &steps)), "flip", &steps, &mut sum, &mut sh);
+        }
+    }
+    // 4b. one-hop paths: set_second_hop on the view and on the model with the second AS's key; the
+    //     second hop must authenticate at the second AS (checked in Coq with the Gallina AES-CMAC
+    //     over the fields as finally stored).  ExpTime of hop 1 in {0,1,63,255}, SegID advanced or
+    //     not, second-hop slot zeroed or pre-dirtied (flags, ExpTime, interfaces, MAC)
+    {
+        let mut onehop_cases: Vec<(u8, bool, bool)> = vec![];
+        for exp1 in [0u8, 1, 63, 255] { for adv in [false, true] { for dirty in [false, true] { onehop_cases.push((exp1, adv, dirty)); } } }
+        for _ in 0..(if thorough { 64 } else { 8 }) { onehop_cases.push((rng.below(256) as u8, rng.chance(1, 2), rng.chance(1, 2))); }
+        for (exp1, adv, dirty) in onehop_cases {
+            let key = keys[1 + rng.below(2) as usize];
+            let ingress = if rng.chance(1, 4) { rng.range(1, 65535) as u16 } else { 0x0102 };
+            let ts = if rng.chance(1, 6) { u32::MAX } else { 1_700_000_000 + rng.below(100000) as u32 };
+            let info = info_bytes(1, 0, rng.below(65536) as u16, ts);
+            let mut mac1 = [0u8; 6]; for m in mac1.iter_mut() { *m = rng.below(256) as u8; }
+            let hop1 = hop_bytes(0, exp1, 0, rng.range(1, 500) as u16, mac1);
+            let hop2 = if dirty {
+                let mut m = [0u8; 6]; for x in m.iter_mut() { *x = rng.below(256) as u8; }
+                hop_bytes(*rng.pick(&[0u8, 1, 2, 3]), *rng.pick(&[7u8, 200, 255, exp1.wrapping_add(1)]), rng.below(65536) as u16, rng.below(65536) as u16, m)
+            } else { [0u8; 12] };
+            let mut b = info.to_vec(); b.extend_from_slice(&hop1); b.extend_from_slice(&hop2);
+            let mut bv = b.clone();
+            let vres = catch_unwind(AssertUnwindSafe(|| { let (v, _) = OneHopPathView::try_from_mut_slice(&mut bv).unwrap(); v.set_second_hop(ingress, key, adv); }));
+            let mb = catch_unwind(AssertUnwindSafe(|| { let (v, _) = OneHopPathView::try_from_slice(&b).unwrap(); let mut m = v.to_model(); m.set_second_hop(ingress, key, adv); m.try_encode_to_vec().unwrap_or_default() })).unwrap_or_default();
+            if vres.is_err() { bv = vec![]; }
+            let case = format!("ROne (mkOC {} {} {} {} {} {})", coq_bytes(&b), coq_bytes(&key), ingress, adv as u64, coq_bytes(&bv), coq_bytes(&mb));
+            let hum = format!("onehop exp1={} advanced={} dirty_slot={} ingress={} hop2_before={:02x?} hop2_view={:02x?} hop2_model={:02x?}", exp1, adv, dirty, ingress, hop2, bv.get(20..).unwrap_or(&[]), mb.get(20..).unwrap_or(&[]));
+            emit(case, hum, "onehop", &[], &mut sum, &mut sh);
         }
     }
     // 5. random step sequences on random (mostly well-formed) paths
